@@ -10,6 +10,7 @@
    The models mirror /repo after the fix: commits 7026b86 (connmgr) and 1a05aed (server). *)
 From Coq Require Import ZArith List.
 From BHS Require Import Peers PeersProofs ConnMgr ConnMgrProofs AddrSearch AddrSearchProofs.
+From BHS Require AddrBook AddrBookProofs.
 Import ListNotations.
 Open Scope Z_scope.
 
@@ -220,3 +221,42 @@ Proof. exact new_address_group_never_relaxes. Qed.
 Print Assumptions C18_new_address_sound.
 Print Assumptions C18_new_address_relaxes.
 Print Assumptions C18_new_address_group_never_relaxes.
+
+(* ---- the address manager's bookkeeping (addrmgr: updateAddress, Good, BanAddress) ----
+   The bucket a hash selects and the outcome of updateAddress's lottery are the environment (arguments of the
+   operations); eviction from a full bucket is not modelled.  The model mirrors /repo after fix dec9d30. *)
+
+(* after EVERY history of add / good / ban operations the counters are exact: nTried is the number of addresses the
+   tried table holds, nNew the number of addresses held by new buckets, and the index holds exactly those *)
+Theorem C18_addrmgr_counters_exact : forall ops,
+  let s := AddrBook.run ops in
+  AddrBook.n_tried s = AddrBook.in_tried s /\ AddrBook.n_new s = AddrBook.in_new s /\
+  Z.of_nat (length (AddrBook.index s)) = AddrBook.n_new s + AddrBook.n_tried s.
+Proof. exact AddrBookProofs.counters_exact. Qed.
+
+(* GetAddress looks for a non-empty bucket in the table its counter sends it to, holding the manager's mutex: after
+   every history that table holds an address (so the search ends), and with both counters 0 nothing is known *)
+Theorem C18_addrmgr_get_address_has_candidate : forall ops,
+  let s := AddrBook.run ops in
+  (0 < AddrBook.n_tried s -> exists e b, In e (AddrBook.index s) /\ AddrBook.e_tried_in e = Some b) /\
+  (0 < AddrBook.n_new s -> exists e b, In e (AddrBook.index s) /\ In b (AddrBook.e_buckets e)) /\
+  (AddrBook.n_tried s + AddrBook.n_new s = 0 -> AddrBook.index s = []).
+Proof. exact AddrBookProofs.get_address_has_candidate. Qed.
+
+(* a banned address is forgotten (index and tables) and stays ignored while the ban is recorded *)
+Theorem C18_addrmgr_ban_forgets : forall ops k,
+  let s := AddrBook.step (AddrBook.run ops) (AddrBook.OpBan k) in
+  AddrBook.find k (AddrBook.index s) = None /\ In k (AddrBook.banned s).
+Proof. exact AddrBookProofs.ban_forgets. Qed.
+
+(* the code as it was before dec9d30 fails the first of these: add, connect (Good), ban leaves nTried = 1 with an
+   empty tried table - the state in which GetAddress never returns (history, kept as a refutation of the old code) *)
+Theorem C18_addrmgr_old_ban_refuted :
+  let s := AddrBook.run_old [AddrBook.OpAdd 7 3 true; AddrBook.OpGood 7 9; AddrBook.OpBan 7] in
+  AddrBook.n_tried s = 1 /\ AddrBook.in_tried s = 0 /\ AddrBook.refs_of s 7 = -1.
+Proof. exact AddrBookProofs.old_ban_of_tried_address_refuted. Qed.
+
+Print Assumptions C18_addrmgr_counters_exact.
+Print Assumptions C18_addrmgr_get_address_has_candidate.
+Print Assumptions C18_addrmgr_ban_forgets.
+Print Assumptions C18_addrmgr_old_ban_refuted.
